@@ -176,6 +176,211 @@ def script_exceeds(ex):
               z3.Implies(z3.Not(rt), z3.Not(some)), 'T')
 
 
+def _same(a, b, ty='str'):
+    from pyvc.ops import to_term, none_flag
+    return z3.And(to_term(a, ty) == to_term(b, ty),
+                  ops.z3bool(none_flag(a)) == ops.z3bool(none_flag(b)))
+
+
+def script_request_for_provider(ex):
+    """_allocation_request_for_provider: one resource request per requested
+    class, each for the full requested amount on the one given provider, and
+    nothing else; the mapping names exactly that provider under the group's
+    suffix (the "suffixed group in full on the one provider its mapping
+    names" clause, and the single-provider path of the unsuffixed group)"""
+    I = Interp(ex, registry())
+    ctx = I.ghost['ctx'] = lib.CtxStub()
+    req = I.fresh_map('requested', 'int', 'int')
+    prov = I.fresh('provider', ('obj', classes.RP))
+    suffix = I.fresh('suffix', 'str')
+    rc = z3.Int('rc!rfp')
+    # RequestGroupSearchContext.__init__ builds the dict from
+    # rc_cache.id_from_string of validated names
+    ex.hyp(ops.forall([rc], z3.Implies(z3.Select(req.dom, rc),
+                                       ctx.rc_cache.known_id(rc)),
+                      patterns=[z3.Select(req.dom, rc)]))
+    try:
+        res = I.call(ac._allocation_request_for_provider,
+                     [ctx, req, prov, suffix], {})
+    except PyRaise as pr:
+        ex.oblige('C02.T.request_for_provider.no_raise', False, 'T',
+                  {'raised': pr.exc.cls.__name__})
+        return
+    rrs = I.read_field(res, 'resource_requests')
+    if isinstance(rrs, VList):
+        ex.oblige('C02.T.request_for_provider.empty_only_if_nothing_requested',
+                  z3.Not(z3.Exists([rc], z3.Select(req.dom, rc)))
+                  if not rrs.items else False, 'T')
+        ln, arr = z3.IntVal(0), None
+    else:
+        ln, arr = rrs.len, rrs.arr
+    q = z3.Int('q!rfp')
+    f_rp = I.fld(CC.ARR, 'resource_provider')
+    f_rc = I.fld(CC.ARR, 'resource_class')
+    f_am = I.fld(CC.ARR, 'amount')
+    name = ctx.rc_cache.f_str
+    if arr is not None:
+        x = z3.Select(arr, q)
+        ex.oblige('C02.T.request_for_provider.every_class_in_full',
+                  ops.forall([rc], z3.Implies(
+                      z3.Select(req.dom, rc),
+                      z3.Exists([q], z3.And(
+                          q >= 0, q < ln,
+                          z3.Select(f_rp, x) == prov.ref,
+                          z3.Select(f_rc, x) == name(rc),
+                          z3.Select(f_am, x) == z3.Select(req.val, rc))))),
+                  'T')
+        ex.oblige('C02.T.request_for_provider.nothing_else',
+                  ops.forall([q], z3.Implies(
+                      z3.And(q >= 0, q < ln),
+                      z3.And(z3.Select(f_rp, x) == prov.ref,
+                             z3.Exists([rc], z3.And(
+                                 z3.Select(req.dom, rc),
+                                 z3.Select(f_rc, x) == name(rc),
+                                 z3.Select(f_am, x) ==
+                                 z3.Select(req.val, rc)))))), 'T')
+        q2 = z3.Int('q2!rfp')
+        ex.oblige('C02.T.request_for_provider.one_request_per_class',
+                  ops.forall([q, q2], z3.Implies(
+                      z3.And(q >= 0, q < q2, q2 < ln),
+                      z3.Select(f_rc, z3.Select(arr, q)) !=
+                      z3.Select(f_rc, z3.Select(arr, q2)))), 'T')
+    mp = I.read_field(res, 'mappings')
+    if isinstance(mp, SMap) and mp.vty == ('set', 'str'):
+        from pyvc.ops import to_term
+        k = z3.Const('k!rfp', sort_of('str'))
+        u = z3.Const('u!rfp', sort_of('str'))
+        members = I.coll_fns(('set', 'str'))[0](
+            z3.Select(mp.val, to_term(suffix, 'str')))
+        ex.oblige('C02.T.request_for_provider.mapping_names_the_provider',
+                  z3.And(ops.forall([k], z3.Select(mp.dom, k) ==
+                                    (k == to_term(suffix, 'str'))),
+                         ops.forall([u], z3.Select(members, u) == (
+                             u == to_term(I.read_field(prov, 'uuid'), 'str')))),
+                  'T')
+    else:
+        ex.oblige('C02.T.request_for_provider.mapping_names_the_provider',
+                  False, 'T', {'mappings': repr(mp)})
+    ex.oblige('C02.T.request_for_provider.anchor_is_the_root',
+              _same(I.read_field(res, 'anchor_root_provider_uuid'),
+                          I.read_field(prov, 'root_provider_uuid')), 'T')
+
+
+def script_single_provider(ex):
+    """_alloc_candidates_single_provider: both loops by induction; the real
+    _allocation_request_for_provider, AllocationRequest.__copy__ and
+    in_filtered_anchors are executed inside the iteration step"""
+    from pyvc.ops import to_term
+    from placement.objects import trait as trait_obj
+    reg = registry()
+    reg['fields'].update(CC.SP_FIELDS)
+    reg['loops'].update(CC.SP_LOOPS)
+    reg['havoc_types'].update(CC.SP_HAVOC_TYPES)
+    base_hook = reg['getattr']
+
+    def hook(I, v, name):
+        if name == 'context' and isinstance(v, Obj):
+            return I.ghost['ctx']
+        return base_hook(I, v, name)
+    reg['getattr'] = hook
+    reg['calls'][id(ac._allocation_request_for_provider)] = \
+        CC.request_for_provider_wrapper
+    reg['calls'][id(trait_obj.get_traits_by_provider_tree)] = \
+        lambda I, a, k: I.fresh_map('prov_traits', 'int', ('list', 'str'))
+    reg['calls'][id(res_ctx.anchors_for_sharing_providers)] = \
+        lambda I, a, k: I.fresh_list('anchors', ('obj', CC.AnchorRow))
+    box = {}
+
+    def summaries_stub(I, a, k):
+        # assumed (A-sql): the usage query returns a row for every provider
+        # of rp_tuples (each has inventory of the requested classes), so the
+        # contract proved by script_summaries gives each a summary
+        rw = a[1]
+        m = I.fresh_map('summaries_by_id', 'int', ('obj', CC.PSUM))
+        I.write_field(rw, 'summaries_by_id', m)
+        tuples = box['tuples']
+        j = z3.Int('j!sps')
+        I.ex.hyp(ops.forall([j], z3.Implies(
+            z3.And(j >= 0, j < tuples.len),
+            z3.Select(m.dom, to_term(I.value_of_term(
+                z3.Select(tuples.arr, j), tuples.ety)[0], 'int'))),
+            patterns=[z3.Select(tuples.arr, j)]))
+        return None
+    reg['calls'][id(ac._build_provider_summaries)] = summaries_stub
+    I = Interp(ex, reg)
+    ctx = I.ghost['ctx'] = lib.CtxStub()
+    rg = I.fresh('rg_ctx', ('obj', res_ctx.RequestGroupSearchContext))
+    rw = I.fresh('rw_ctx', ('obj', CC.RWSC))
+    tuples = box['tuples'] = I.fresh_list('rp_tuples',
+                                          ('tuple', ('int', 'int')))
+    req = I.read_field(rg, 'resources')
+    suffix = I.read_field(rg, 'suffix')
+    rc = z3.Int('rc!sp')
+    ex.hyp(ops.forall([rc], z3.Implies(z3.Select(req.dom, rc),
+                                       ctx.rc_cache.known_id(rc)),
+                      patterns=[z3.Select(req.dom, rc)]))
+    try:
+        res = I.call(ac._alloc_candidates_single_provider, [rg, rw, tuples], {})
+    except PyRaise as pr:
+        ex.oblige('C02.T.single.no_raise', False, 'T',
+                  {'raised': pr.exc.cls.__name__, 'args': repr(pr.exc.args)})
+        return
+    if not isinstance(res, SList):
+        # no matching provider: an empty result
+        empty = isinstance(res, (VSet, VList)) and not res.items or \
+            isinstance(res, SSet) and res.elems == []
+        ex.oblige('C02.T.single.empty_without_providers',
+                  z3.And(z3.BoolVal(bool(empty)), tuples.len == 0), 'T')
+        return
+    # proved for an arbitrary entry k0 of the result
+    k0 = I.fresh('k0', 'int').t
+    ex.assume(z3.And(k0 >= 0, k0 < res.len))
+    a = z3.Select(res.arr, k0)
+    p = z3.Select(I.fld(CC.AREQ, 'ghost_prov'), a)
+    ln, ar = CC.rr(I, a)
+    q = z3.Int('q!sp')
+    x = z3.Select(ar, q)
+    f_rp = I.fld(CC.ARR, 'resource_provider')
+    f_rc = I.fld(CC.ARR, 'resource_class')
+    f_am = I.fld(CC.ARR, 'amount')
+    name = ctx.rc_cache.f_str
+    sums = I.read_field(rw, 'summaries_by_id')
+    j = z3.Int('j!sp')
+    rp_id = to_term(I.value_of_term(z3.Select(tuples.arr, j), tuples.ety)[0],
+                    'int')
+    ex.oblige('C02.T.single.provider_is_one_of_rp_tuples', z3.Exists(
+        [j], z3.And(j >= 0, j < tuples.len,
+                    p == z3.Select(I.fld(CC.PSUM, 'resource_provider'),
+                                   z3.Select(sums.val, rp_id)))), 'T')
+    ex.oblige('C02.T.single.every_class_in_full_on_the_provider',
+              ops.forall([rc], z3.Implies(
+                  z3.Select(req.dom, rc),
+                  z3.Exists([q], z3.And(
+                      q >= 0, q < ln, z3.Select(f_rp, x) == p,
+                      z3.Select(f_rc, x) == name(rc),
+                      z3.Select(f_am, x) == z3.Select(req.val, rc))))), 'T')
+    ex.oblige('C02.T.single.nothing_else',
+              ops.forall([q], z3.Implies(
+                  z3.And(q >= 0, q < ln),
+                  z3.And(z3.Select(f_rp, x) == p,
+                         z3.Exists([rc], z3.And(
+                             z3.Select(req.dom, rc),
+                             z3.Select(f_rc, x) == name(rc),
+                             z3.Select(f_am, x) == z3.Select(req.val, rc)))))),
+              'T')
+    mid = z3.Select(I.fld(CC.AREQ, 'mappings'), a)
+    mdom, mval = I.coll_fns(('map', 'str', ('set', 'str')))
+    members = I.coll_fns(('set', 'str'))[0](
+        z3.Select(mval(mid), to_term(suffix, 'str')))
+    k = z3.Const('k!sp', sort_of('str'))
+    u = z3.Const('u!sp', sort_of('str'))
+    ex.oblige('C02.T.single.mapping_names_exactly_the_provider', z3.And(
+        ops.forall([k], z3.Select(mdom(mid), k) ==
+                   (k == to_term(suffix, 'str'))),
+        ops.forall([u], z3.Select(members, u) ==
+                   (u == z3.Select(I.fld(classes.RP, 'uuid'), p)))), 'T')
+
+
 def script_summaries(ex):
     """_build_provider_summaries against assumed contracts of its three
     readers (A-sql): every usage row becomes a ProviderSummaryResource with
@@ -361,6 +566,13 @@ def build(tier, seed):
                 'placement/objects/research_context.py:RequestWideSearchContext.copy_arr_if_needed'])
     chk.script('exceeds_capacity', script_exceeds,
                ['placement/objects/research_context.py:RequestWideSearchContext.exceeds_capacity'])
+    chk.script('request_for_provider', script_request_for_provider,
+               ['placement/objects/allocation_candidate.py:_allocation_request_for_provider'])
+    chk.script('single_provider', script_single_provider,
+               ['placement/objects/allocation_candidate.py:_alloc_candidates_single_provider',
+                'placement/objects/allocation_candidate.py:_allocation_request_for_provider',
+                'placement/objects/allocation_candidate.py:AllocationRequest.__copy__',
+                'placement/objects/research_context.py:RequestWideSearchContext.in_filtered_anchors'])
     chk.script('build_provider_summaries', script_summaries,
                ['placement/objects/allocation_candidate.py:_build_provider_summaries'])
     chk.script('multi_group_rcs', script_multi_group,
